@@ -111,4 +111,7 @@ def prepare(crates, prop, tier, seed):
         res["error"] = str(e)
     except gen_e4.GenError as e:
         res["error"] = str(e)
+    except gen_e4.CompilerPanic as e:
+        res["error"] = str(e)
+        res["compiler_panic"] = {"grammar": e.grammar, "args": e.args}
     return res
